@@ -1,0 +1,73 @@
+//go:build verif
+
+package badger
+
+// Thin exported wrappers around the publisher for the /verif harness (engine "trie", ops
+// psub / punsub / ppub). Nothing here is compiled into a normal build; the wrappers only call
+// production code (newPublisher, newSubscriber, deleteSubscriber, publishUpdates).
+
+import (
+	"github.com/dgraph-io/badger/v4/pb"
+	"github.com/dgraph-io/ristretto/v2/z"
+)
+
+// VerifPublisher wraps a *publisher that is driven synchronously (no listenForUpdates goroutine).
+type VerifPublisher struct {
+	p    *publisher
+	subs map[uint64]subscriber
+}
+
+// VerifNewPublisher calls newPublisher.
+func VerifNewPublisher() *VerifPublisher {
+	return &VerifPublisher{p: newPublisher(), subs: map[uint64]subscriber{}}
+}
+
+// Subscribe calls newSubscriber and returns the subscriber id.
+func (v *VerifPublisher) Subscribe(matches []pb.Match) (uint64, error) {
+	s, err := v.p.newSubscriber(z.NewCloser(1), matches)
+	if err != nil {
+		return 0, err
+	}
+	v.subs[s.id] = s
+	return s.id, nil
+}
+
+// Unsubscribe calls deleteSubscriber.
+func (v *VerifPublisher) Unsubscribe(id uint64) {
+	v.p.deleteSubscriber(id)
+	delete(v.subs, id)
+}
+
+// Publish hands one request with the given entries (internal keys, i.e. with the timestamp
+// suffix, as writeRequests passes them) to publishUpdates.
+func (v *VerifPublisher) Publish(entries []*Entry) {
+	req := &request{Entries: entries}
+	req.IncrRef()
+	v.p.publishUpdates(requests{req})
+}
+
+// Drain returns what has been sent to the subscriber's channel so far, without blocking.
+func (v *VerifPublisher) Drain(id uint64) []*pb.KV {
+	s, ok := v.subs[id]
+	if !ok {
+		return nil
+	}
+	var out []*pb.KV
+	for {
+		select {
+		case l := <-s.sendCh:
+			out = append(out, l.Kv...)
+		default:
+			return out
+		}
+	}
+}
+
+// SubscriberIDs lists the ids registered through this wrapper.
+func (v *VerifPublisher) SubscriberIDs() []uint64 {
+	var ids []uint64
+	for id := range v.subs {
+		ids = append(ids, id)
+	}
+	return ids
+}
